@@ -390,7 +390,8 @@ def run_proof_tier(prop, contract_modules, source_modules, classify=None):
         cfg = getattr(cm, 'NATIVE_SAMPLING', None)
         if not cfg:
             continue
-        names = [c.name for c in cm.CONTRACTS if cfg['select'] in c.name and not getattr(c, 'external', None)]
+        sel = cfg['select'] if isinstance(cfg['select'], (tuple, list)) else (cfg['select'],)
+        names = [c.name for c in cm.CONTRACTS if any(x in c.name for x in sel) and not getattr(c, 'external', None)]
         res = native_sampling(cm.__name__, names, cfg.get('n', 150), 1)
         if 'error' in res:
             errors.append(f"native sampling of {cm.__name__} failed: {str(res['error'])[-300:]}")
